@@ -190,3 +190,23 @@ Theorem c13_front_channel_has_no_credentials_any_par : forall c q rnd ref replie
   no_cred (lo_browser o) /\ (forall k f, lo_cookie o = Some (CkEnc k f) -> no_cred_fields f).
 Proof. exact login_par_front_channel_has_no_credentials. Qed.
 Print Assumptions c13_front_channel_has_no_credentials_any_par.
+
+(** (8) "a signed assertion that is unique per request": over any number of back-channel requests (pushed authorization
+    requests, code redemptions, refresh grants - sequential or overlapping in time; the list is in the order in which
+    their client authentication is built) every request carries its own assertion and no jti occurs twice. *)
+Theorem c13_assertions_unique_across_requests : forall c jti n,
+  a_use_secret c = false -> NoDup (map assertion_of (back_channel_auths c jti n)).
+Proof. exact back_channel_assertions_unique. Qed.
+Print Assumptions c13_assertions_unique_across_requests.
+
+Theorem c13_every_back_channel_request_authenticated : forall c jti n p,
+  a_use_secret c = false -> In p (back_channel_auths c jti n) -> exists j, p = client_auth c j /\ assertion_of p = Some j.
+Proof. exact back_channel_every_request_authenticated. Qed.
+Print Assumptions c13_every_back_channel_request_authenticated.
+
+(* non-vacuity: a private-key deployment; three requests carry the assertions with the draws 5, 6, 7 *)
+Example c13_assertions_unique_nonvacuous :
+  let c := mk_acfg 1 [{| i_scheme := [104;116;116;112]; i_host := [119]; i_path := [] |}] [99] [105] [] [] [] [] [111] []
+                   true false false true true in
+  a_use_secret c = false /\ map assertion_of (back_channel_auths c 5 3) = [Some 5; Some 6; Some 7].
+Proof. split; reflexivity. Qed.
